@@ -308,3 +308,74 @@ def guard_conditions(node, stop=None):
 
 def _in(node, lst):
     return any(node is x for x in lst)
+
+
+def _atoms(test, pol, out):
+    """decompose a condition known to be ``pol`` into atomic (text, polarity) facts"""
+    from .core import norm
+
+    while isinstance(test, ast.UnaryOp) and isinstance(test.op, ast.Not):
+        test, pol = test.operand, not pol
+    if isinstance(test, ast.BoolOp):
+        if isinstance(test.op, ast.And) and pol or isinstance(test.op, ast.Or) and not pol:
+            for v in test.values:
+                _atoms(v, pol, out)
+            return
+    if isinstance(test, ast.Compare) and len(test.ops) == 1:
+        flip = {ast.NotEq: ast.Eq, ast.IsNot: ast.Is, ast.NotIn: ast.In}
+        for neg, posop in flip.items():
+            if isinstance(test.ops[0], neg):
+                test = ast.Compare(left=test.left, ops=[posop()], comparators=test.comparators)
+                pol = not pol
+                break
+    out.add((norm(test), pol))
+
+
+def implied_conditions(g: "CFG", node):
+    """Atomic conditions that hold on EVERY path from the entry to ``node`` (an ast statement or expression inside one),
+    derived from the if statements that dominate it: an arm that cannot reach the node (because it always returns /
+    raises / continues) makes the opposite polarity hold.  `if a and b:` true contributes a and b; `if a or b:` false
+    contributes not a and not b; `!=`/`is not`/`not in`/`not` are normalised.  Restructuring between nested ifs, guard
+    clauses and early returns does not change the result."""
+    nid = g.id_of(node)
+    out = set()
+    if nid is None:
+        return out
+    for i, st in g.stmt.items():
+        if not isinstance(st, ast.If) or i == nid or not g.dominates(i, nid):
+            continue
+        # entries of the two arms
+        def first(stmts):
+            for s in stmts:
+                k = g.node_of.get(id(s))
+                if k is not None:
+                    return k
+            return None
+
+        t_entry = first(st.body)
+        f_entry = first(st.orelse) if st.orelse else None
+        reach_t = t_entry is not None and (t_entry == nid or nid in g.reachable_nodes(t_entry))
+        if f_entry is not None:
+            reach_f = f_entry == nid or nid in g.reachable_nodes(f_entry)
+        else:
+            # no else: the false edge goes to whatever follows the if; the node is reachable that way unless it sits
+            # inside the true arm and nothing loops back
+            succs = [s for s in g.succ[i] if s != t_entry]
+            reach_f = any(s == nid or nid in g.reachable_nodes(s) for s in succs)
+        # loops can make both arms "reach" the node through the back edge; only use the fact when exactly one arm reaches it
+        # without passing through the if again
+        def reach_avoiding(entry):
+            if entry is None:
+                return False
+            return entry == nid or g.paths_avoiding(entry, nid, {i})
+
+        rt = reach_avoiding(t_entry)
+        if f_entry is not None:
+            rf = reach_avoiding(f_entry)
+        else:
+            rf = any(s == nid or g.paths_avoiding(s, nid, {i}) for s in g.succ[i] if s != t_entry)
+        if rt and not rf:
+            _atoms(st.test, True, out)
+        elif rf and not rt:
+            _atoms(st.test, False, out)
+    return out
